@@ -654,3 +654,9 @@ type SQLResult struct{ N int64 }
 
 func (r *SQLResult) LastInsertId() (int64, error) { return 0, nil }
 func (r *SQLResult) RowsAffected() (int64, error) { return r.N, nil }
+
+//wsym:replace (*database/sql.DB).SetMaxIdleConns
+func DBSetMaxIdleConns(db *sql.DB, n int) {}
+
+//wsym:replace (*database/sql.DB).Close
+func DBClose(db *sql.DB) error { return nil }
